@@ -266,11 +266,13 @@ static void c10_run(int tier, long cfg) { (void) tier; c10_build(); c10_body(&c1
 /* ================================================================= C11 */
 
 static const int limits[] = { 32, 64, 256, 1024, 2048 };
+static void c11_two_starts(long k);
 enum { RC_DEFAULT, RC_PIPES, RC_DISCARD, RC_HANDLES, RC_FILES, NRC };
 
 static void c11_run(int tier, long cfg)
 {
   int nl = tier ? 5 : 3;
+  if (cfg >= (long) nl * NRC * 243) { c11_two_starts(cfg - (long) nl * NRC * 243); return; }
   int L = limits[cfg % nl];
   cfg /= nl;
   int rc = (int) (cfg % NRC);
@@ -337,7 +339,50 @@ static void c11_run(int tier, long cfg)
     if (st[i] && fcntl(fds[i], F_GETFD) < 0) vk_violation("C05", "no-foreign-close", key, "the caller's descriptor %d was closed by the library", fds[i]);
 }
 
-static long c11_n(int tier) { return (long) (tier ? 5 : 3) * NRC * 243; }
+/* two starts in one process with the descriptor limit raised in between and descriptors open in the new range */
+static void c11_two_starts(long k)
+{
+  static const int l1s[3] = { 32, 64, 256 }, l2s[3] = { 64, 300, 1024 };
+  int L1 = l1s[k % 3], L2 = l2s[k % 3], rc = (int) (k / 3) % 3;
+  memset(&vk_cfg, 0, sizeof vk_cfg);
+  vk_cfg.real_exec = 1;
+  vk_cfg.vlimit = L1;
+  snprintf(key, sizeof key, "h_c11|two-starts|limit=%d->%d|redirect=%d", L1, L2, rc);
+  hx_desc("%s", key);
+  snprintf(key, sizeof key, "h_c11|two-starts");
+  hx_begin();
+  reproc_stop_actions kk = { { REPROC_STOP_KILL, REPROC_INFINITE }, { REPROC_STOP_NOOP, 0 }, { REPROC_STOP_NOOP, 0 } };
+  reproc_options o;
+  memset(&o, 0, sizeof o);
+  if (rc == RC_PIPES) o.redirect.err.type = REPROC_REDIRECT_PIPE;
+  if (rc == RC_DISCARD) o.redirect.discard = true;
+  vk_script("");
+  vk_script("");
+  reproc_t *p1 = hx_new();
+  int r = hx_start(p1, hx_helper_argv(), o);
+  if (r < 0) vk_finish(OUT_INFRA, "first start failed: %d", r);
+  if (vk_children[0].have_hello && inherit_check("C11", &vk_children[0], NULL) == 0) vk_hit(CL_INHERIT_OK);
+  /* the application raises its limit and opens descriptors up there */
+  vk_cfg.vlimit = L2;
+  int src = open("pool-file2", O_RDWR | O_CREAT, 0644);
+  int fds[3] = { L1, (L1 + L2) / 2, L2 - 1 };
+  for (int i = 0; i < 3; i++) { dup2(src, fds[i]); fcntl(fds[i], F_SETFD, 0); }
+  close(src);
+  reproc_t *p2 = hx_new();
+  r = hx_start(p2, hx_helper_argv(), o);
+  if (r < 0) vk_finish(OUT_INFRA, "second start failed: %d", r);
+  struct vk_child *c2 = &vk_children[1];
+  if (!c2->have_hello) vk_violation("C04", "success-without-program", key, "no hello");
+  else if (inherit_check("C11", c2, NULL) == 0) vk_hit(CL_POOL_TOP);
+  reproc_stop(p1, kk);
+  reproc_stop(p2, kk);
+  hx_destroy(p1);
+  hx_destroy(p2);
+  for (int i = 0; i < 3; i++) close(fds[i]);
+}
+
+#define NTWO 9
+static long c11_n(int tier) { return (long) (tier ? 5 : 3) * NRC * 243 + NTWO; }
 
 const struct hx_harness h_c10 = { "C10", "h_c10", c10_n, c10_run, redir_clauses, NULL };
 const struct hx_harness h_c11 = { "C11", "h_c11", c11_n, c11_run, redir_clauses, NULL };
